@@ -31,7 +31,7 @@ func c18RuleSet(prefix string) c18Rules {
 func checkC18(c *Ctx) {
 	r, p := c.R, c.P
 	r.Explanation = "Decides structural necessary conditions of C18 on concurrency/dir.Dir.Write, from the SSA of today's source, comparing file-system calls by symbolic path terms (fields of Dir, constants, filepath.Join/concatenation/Sprintf, time.Now, pure in-module helpers inlined): " +
-		"(W1-order) there is exactly one os.Rename whose destination is Dir.target, its source is the path of an os.Symlink made in the same call, that link points at the version directory; the creation of the version directory, every write below it and the Symlink have their error tested and no path on which one of them failed (or was skipped) reaches the rename; nothing touches the version directory after the rename. " +
+		"(W1-order) there is exactly one os.Rename whose destination is Dir.target, its source is the path of an os.Symlink made in the same call, that link points at the version directory; the creation of the version directory, every write below it and the Symlink have their error tested and no path on which one of them failed (or was skipped) reaches the rename; nothing touches the version directory after the rename — including deferred calls: `defer os.X(…)` and deferred closure literals are modelled as running at every return that follows the defer statement, under the closure's own condition (tests of the named error result against nil, captured bool flags whose must-value at the return is tracked); a deferred mutation of the version directory that can run at a return reachable after the successful rename is a violation, one whose condition cannot be evaluated is UNDECIDED. Error values that travel through a variable cell (named/captured err) are chased to the call that produced them. " +
 		"(W1-complete) the files are written in a range loop over the map parameter, path = join(version dir, key) and content = value of the same entry, every iteration passes the success edge of the write before the back edge, and the rename is reached only through the loop's end. " +
 		"(W1-nil-published) every `return nil` is dominated by the success edge of the rename. " +
 		"(W1-prev) RemoveAll(*prev) exists, runs only after the successful rename and before prev is overwritten; every nil return has prev==nil-or-removed and prev = address of this call's version directory. " +
